@@ -187,6 +187,16 @@ type Exec struct {
 	userEnd     []func()
 	Log         []string // harness observation log (free form, used for outcomes)
 	timeEpoch   uint64
+	idleHook    func(newClock int64)
+	alltimers   []*Timer
+}
+
+// OnIdleAdvance registers f to be called whenever virtual time is about to advance because no
+// thread is enabled (a timer fires at quiescence); newClock is the time it advances to.
+func OnIdleAdvance(f func(newClock int64)) {
+	if e := cur; e != nil {
+		e.idleHook = f
+	}
 }
 
 var (
@@ -507,6 +517,9 @@ func (e *Exec) schedule(me *Thread) {
 		a := alts[choice]
 		e.Transitions++
 		if a.tm != nil {
+			if !anyThread && e.idleHook != nil {
+				e.idleHook(a.tm.when)
+			}
 			if e.opts.Trace {
 				e.Trace = append(e.Trace, fmt.Sprintf("timer#%d fires at %dns (%s)", a.tm.seq, a.tm.when, a.tm.what))
 			}
